@@ -22,6 +22,9 @@ type Replayer struct {
 	HarnessDir string
 	Scratch    string
 	Entries    []string // every harness entry that may be replayed ("pkg/path.Func")
+	// RWInstrument: build the package under test with sync.RWMutex replaced by verifrt.RWMutex, which reports a
+	// read lock taken by a goroutine that already holds it (native confirmation of "recursive read lock")
+	RWInstrument bool
 
 	mu    sync.Mutex
 	built map[string]string // package dir (relative) -> test binary
@@ -67,8 +70,12 @@ func (r *Replayer) build(pkgRel string) (string, error) {
 		r.built = map[string]string{}
 		r.berr = map[string]error{}
 	}
-	if b, ok := r.built[pkgRel]; ok {
-		return b, r.berr[pkgRel]
+	bkey := pkgRel
+	if r.RWInstrument {
+		bkey += "#rw"
+	}
+	if b, ok := r.built[bkey]; ok {
+		return b, r.berr[bkey]
 	}
 	if err := os.MkdirAll(r.Scratch, 0o755); err != nil {
 		return "", err
@@ -129,6 +136,40 @@ func (r *Replayer) build(pkgRel string) (string, error) {
 		return nil
 	})
 	replace[filepath.Join(r.Repo, pkgRel, "zz_verif_replay_test.go")] = testFile
+	if r.RWInstrument {
+		safe += "_rw"
+		srcs, _ := filepath.Glob(filepath.Join(r.Repo, pkgRel, "*.go"))
+		for _, src := range srcs {
+			if strings.HasSuffix(src, "_test.go") {
+				continue
+			}
+			if _, over := replace[src]; over {
+				continue
+			}
+			data, err := os.ReadFile(src)
+			if err != nil || !bytes.Contains(data, []byte("sync.RWMutex")) {
+				continue
+			}
+			text := strings.ReplaceAll(string(data), "sync.RWMutex", "verifrtmu.RWMutex")
+			lines := strings.Split(text, "\n")
+			for i, l := range lines {
+				if strings.HasPrefix(l, "package ") {
+					lines[i] = l + "; import verifrtmu \"" + ModulePath + "/verifrt\"; import verifsync \"sync\""
+					break
+				}
+			}
+			// keep "sync" used in the file whatever else it declares
+			text = strings.Join(lines, "\n") + "\nvar _ verifsync.Mutex\n"
+			if strings.Contains(text, "\t\"sync\"\n") && !strings.Contains(text, "sync.") {
+				text = strings.Replace(text, "\t\"sync\"\n", "", 1)
+			}
+			dst := filepath.Join(r.Scratch, safe+"_"+filepath.Base(src))
+			if err := os.WriteFile(dst, []byte(text), 0o644); err != nil {
+				return "", err
+			}
+			replace[src] = dst
+		}
+	}
 	ov, _ := json.Marshal(map[string]interface{}{"Replace": replace})
 	ovFile := filepath.Join(r.Scratch, safe+"_overlay.json")
 	os.WriteFile(ovFile, ov, 0o644)
@@ -142,8 +183,8 @@ func (r *Replayer) build(pkgRel string) (string, error) {
 	if err != nil {
 		err = fmt.Errorf("native build of %s failed: %v\n%s", pkgRel, err, out)
 	}
-	r.built[pkgRel] = bin
-	r.berr[pkgRel] = err
+	r.built[bkey] = bin
+	r.berr[bkey] = err
 	return bin, err
 }
 
